@@ -18,8 +18,10 @@ func init() {
 			"(R3) close(stopComplete) is reachable only across stopFlag set, no control function running, all three counters zero and the single-shot flag, under the module lock (truth table by finite-valuation propagation); " +
 			"(R4) every managed callback receives the module context (m.Ctx) resp. a task context derived from it; " +
 			"(R5) newTask, TriggerEvent, processEventTrigger, InjectEvent and runWithLocking are gated by OnlineSoon/isActive, and OnlineSoon is false once the stop flag is set (truth table); (R6) start() installs a fresh context and clears the stop flag under the lock before the start function runs. " +
+			"(R7) lock pairing over the functions of package(s) modules: " + lockRuleText + ". " +
 			"NOT decided: promptness/timeouts, the real overlap of finishing goroutines with the stopper under all schedules.",
-		Rules: []ruleFn{c05R1, c05R2, c05R3, c05R4, c05R5, c05R6},
+		Rules: []ruleFn{c05R1, c05R2, c05R3, c05R4, c05R5, c05R6,
+			lockRuleFor("C05-R7", 25, []string{"modules"}, []string{}, map[string]string{})},
 	})
 }
 
